@@ -185,8 +185,13 @@ func mergeEvidence(id string, cfg CheckCfg, docs []map[string]interface{}, wall 
 	out := docs[0]
 	cov := out["coverage"].(map[string]interface{})
 	num := func(m map[string]interface{}, k string) float64 {
-		f, _ := m[k].(float64)
-		return f
+		switch v := m[k].(type) {
+		case float64:
+			return v
+		case int:
+			return float64(v)
+		}
+		return 0
 	}
 	for _, d := range docs[1:] {
 		c := d["coverage"].(map[string]interface{})
